@@ -222,6 +222,22 @@ def run(ck, facts):
                 comp_eq = True
     splits = [x for x in C.calls_in(body) if x.get("k") == "mcall" and x.get("m") in ("split_once", "split") and any(C.strip(a).get("v") == "/" for a in x.get("a", []))]
     charwise = [x.get("m") for x in C.calls_in(body) if x.get("k") == "mcall" and x.get("m") in ("bytes", "chars", "char_indices", "as_bytes")]
+    # one `../` per directory level of the including header that is not shared: `"../".repeat(<number of '/' left in the base's directory>)`
+    reps = [x for x in C.calls_in(body) if x.get("k") == "mcall" and x.get("m") == "repeat" and "../" in C.str_lits(x["recv"])]
+    pd_defs2 = dict(flow.defs_of(pd))
+
+    def counts_levels(e_, depth=0):
+        for y in C.walk(e_):
+            if y.get("k") == "mcall" and y.get("m") in ("count", "len") and any(z.get("k") == "mcall" and z.get("m") in ("matches", "split", "match_indices") and any(
+                    C.strip(a_).get("v") == "/" for a_ in z.get("a") or []) for z in C.walk(y["recv"])):
+                return True
+            if y.get("k") == "local" and depth < 3:
+                d_ = pd_defs2.get(y.get("id"))
+                if d_ and d_[0] == "expr" and counts_levels(d_[1], depth + 1):
+                    return True
+        return False
+    ck.expect(len(reps) == 1 and counts_levels(reps[0]["a"][0]), "R3", "cpp::path_diff/one-dotdot-per-level", "\"../\".repeat(levels)",
+              "path_diff no longer climbs one `../` per remaining directory level of the including header: a type two namespaces deep includes `../diplomat_runtime.hpp` instead of `../../diplomat_runtime.hpp`", C.loc(pd))
     ck.expect(comp_eq and len(splits) >= 2 and not charwise, "R3", "cpp::path_diff/component-wise", "compares '/'-separated components",
               "path_diff no longer matches the common prefix per '/'-separated component (%s): namespaces sharing leading characters (icu / icu4x) produce include paths to files that do not exist" % (charwise or "no component comparison"), C.loc(pd))
 
@@ -362,6 +378,19 @@ def run(ck, facts):
         ck.expect(rd_ == ri_, "R3", "%s/header-path-siblings" % mod_.split("::")[0], "same recipe up to the `.d` infix", "fmt_decl_header_path and fmt_impl_header_path build their paths differently "
                   "(decl: %s / impl: %s): for some types (nested namespaces, renamed types) `X.d.hpp` is written to another directory than the one `X.hpp` includes it from" %
                   ([o for o in rd_[0] if o not in ri_[0]] + [f_ for f_ in rd_[1] if f_ not in ri_[1]], [o for o in ri_[0] if o not in rd_[0]] + [f_ for f_ in ri_[1] if f_ not in rd_[1]]), C.loc(fd_))
+
+    # ---------------- R3 (cont.) a forward declaration is removed from the table of the type's own namespace only (append_forward files it under `attrs().namespace`;
+    # rm_forward, used to drop a header's forward of itself, looks it up under the same key): sweeping every namespace also deletes the forward of a same-named type elsewhere
+    rmf = tool.fn("cpp::header::Header::rm_forward", optional=True)
+    if rmf is None:
+        ck.bad("R3", "cpp::rm_forward/anchor", "Header::rm_forward not found", None)
+    else:
+        calls_ = [x.get("m") for x in C.walk(C.fn_body(rmf)) if x.get("k") == "mcall"]
+        sweep = sorted(set(calls_) & {"retain", "values_mut", "iter_mut", "for_each", "drain", "clear", "retain_mut"}) + (["for"] if any(x.get("k") == "for" for x in C.walk(C.fn_body(rmf))) else [])
+        keyed = any(x.get("k") == "mcall" and x.get("m") in ("get_mut", "entry", "get") and any(y.get("k") == "field" and y.get("n") == "forwards" for y in C.walk(x["recv"])) and
+                    any(y.get("k") in ("field", "local") and "namespace" in (y.get("n") or "") or (y.get("k") == "local") for a_ in x.get("a") or [] for y in C.walk(a_)) for x in C.walk(C.fn_body(rmf)))
+        ck.expect(keyed and not sweep, "R3", "cpp::rm_forward/own-namespace-only", "forwards.get_mut(namespace)", "Header::rm_forward goes through every namespace's table (%s) instead of the one the type "
+                  "lives in: a header that mentions a same-named type of another namespace loses that forward declaration and does not compile" % (sweep or "no keyed lookup"), C.loc(rmf))
 
     # ---------------- R6 (receivers) the receiver the macro writes for a trait-method wrapper is the trait's: wherever the macro takes SelfParam.reference
     # (lifetime, mutability) apart, both parts are named and used (`&mut self` written as `&self` makes the generated `impl Trait for ..` differ from the trait: E0053)
